@@ -6,6 +6,8 @@ import TT.Transform.Traces
 import TT.Transform.Slash
 import TT.Spec.HeadRulesPinned
 import TT.Spec.Pinned
+import TT.Spec.RootAttachRef
+import TT.Spec.Grammar
 namespace Driver
 open TT TT.Tree
 
@@ -162,7 +164,11 @@ def runOpTransform (op : String) (args : List String) : String :=
         okIf (Spec.WF b) "not-well-formed",
         okIf (Spec.contentKept a b) "content-changed",
         okIf (Spec.parentsKept a b (fun s => Spec.parentOfUid a (s.fields.uid.getD 0) == some rootUid)) "non-root-child-moved",
-        okIf (Spec.shape b == Spec.shape (rootAttach a)) "differs-from-reference"]
+        okIf (Spec.shape b == Spec.shape (rootAttach a)) "differs-from-reference",
+        -- the set-based reference of the documented rule (parent maps and token sets only, TT/Spec/RootAttachRef.lean;
+        -- `rootAttach_eq_ref` proves the model equal to it): every node of the output hangs where the reference says
+        -- (the reference is cubic: sentences of more than 80 tokens are compared with the model only)
+        okIf (a.leafNums.length > 80 || Spec.sameBag (Spec.parentMap none b) (Spec.rootAttachRef a)) "differs-from-set-based-reference"]
     | _, _ => bad
   | "P.C13", [call, a, b] =>
     match decTree a, decTree b with
